@@ -159,6 +159,71 @@ def _local_holds_failure(body, op, from_bb, reach, at_bb, depth=0):
     return True
 
 
+def _decided_by_earlier_switch(body, l, sb):
+    """block sb is reachable only through one value-edge of an earlier switch on the discriminant of
+    the same local l (re-test inserted by drop elaboration)"""
+    from r_panic import edge_dominates
+    du = defuse(body)
+    for s2 in sorted(body.live_blocks):
+        if s2 == sb:
+            continue
+        t2 = body.blocks[s2]['term']
+        if t2['k'] != 'switch':
+            continue
+        dl = op_local(t2['discr'])
+        defs = du.defs.get(dl, []) if dl is not None else []
+        if len(defs) == 1 and defs[0][2] == 'assign' and defs[0][3]['k'] == 'discr' and defs[0][3]['pl']['l'] == l and not defs[0][3]['pl']['p']:
+            for tb in [x for _, x in t2['targets']] + [t2['otherwise']]:
+                if edge_dominates(body, s2, tb, sb):
+                    return True
+    return False
+
+
+def _cleanup_tail(body, sb):
+    """everything reachable from block sb is drops / gotos / flag bookkeeping up to the return: the
+    switch is a drop-elaboration artefact, not program logic"""
+    for b in body.reachable_from(sb):
+        blk = body.blocks[b]
+        for st in blk['stmts']:
+            if st['k'] == 'assign':
+                if st['rv']['k'] == 'discr':
+                    continue
+                if body.locals[st['pl']['l']]['ty'] == 'bool' and st['rv']['k'] == 'use' and st['rv']['op']['k'] == 'const' and not st['pl']['p']:
+                    continue
+                return False
+        if blk['term']['k'] not in ('drop', 'goto', 'return', 'switch', 'unreachable'):
+            return False
+    return True
+
+
+def _sentinel_arm(body, from_bb):
+    """the enclosing function returns plain integers (cannot carry an error) and every return value
+    assigned on the failure arm consists of negative integer constants only: "not found" sentinel"""
+    from facts import op_const_int
+    rty = body.locals[0]['ty']
+    if not re.match(r'^\(?((i8|i16|i32|i64|isize)(, )?)+\)?$', rty):
+        return False
+    # region private to the failure arm: blocks reachable from it that the arm entry dominates
+    reach = {b for b in body.reachable_from(from_bb) if body.dominates(from_bb, b)}
+    found = False
+    for b in reach:
+        for st in body.blocks[b]['stmts']:
+            if st['k'] == 'assign' and st['pl']['l'] == 0:
+                rv = st['rv']
+                ops = rv['ops'] if rv['k'] == 'agg' else ([rv['op']] if rv['k'] == 'use' else None)
+                if ops is None:
+                    return False
+                for o in ops:
+                    v = op_const_int(o)
+                    if v is None or v >= 0:
+                        return False
+                found = True
+        t = body.blocks[b]['term']
+        if t['k'] == 'call' and t['dest']['l'] == 0:
+            return False
+    return found
+
+
 def consume(body, c, depth=0):
     """classify how the result of call c is consumed: (class, detail)"""
     d = c.dest
@@ -260,6 +325,10 @@ def _match_class(body, l, discr_local, ty):
     for b in sorted(body.live_blocks):
         t = body.blocks[b]['term']
         if t['k'] == 'switch' and op_local(t['discr']) == discr_local:
+            if _cleanup_tail(body, b):
+                return None     # drop-elaboration switch in the function's cleanup tail: not a use
+            if _decided_by_earlier_switch(body, l, b):
+                return None     # the variant was already fixed by a dominating switch on the same value
             is_opt = ty.startswith('std::option::Option<')
             fail_val = 0 if is_opt else 1
             tgt = None
@@ -273,6 +342,8 @@ def _match_class(body, l, discr_local, ty):
             okk, why = returns_failure_only(body, tgt)
             if okk:
                 return ('match', 'failure arm bb%d: %s' % (tgt, why))
+            if _sentinel_arm(body, tgt):
+                return ('match', 'failure arm bb%d returns a negative sentinel in a function that cannot return an error' % tgt)
             return ('match-swallow', 'failure arm bb%d continues to a success return: %s' % (tgt, why))
     return None    # a discriminant read that feeds no switch (drop elaboration artefact): not a use
 
